@@ -33,10 +33,15 @@ def _src(n):
 class Sets(ast.NodeVisitor):
   """Very small flow-insensitive typing: names / attributes assigned from set-valued expressions."""
 
+  SET_FUNCS = set()      # module-level functions every return of which is set-valued (filled by inventory())
+
   def __init__(self):
     self.setnames = set()
 
   def is_set(self, n):
+    if isinstance(n, ast.Call) and isinstance(n.func, (ast.Name, ast.Attribute)) and \
+        (n.func.id if isinstance(n.func, ast.Name) else n.func.attr) in Sets.SET_FUNCS:
+      return True
     if isinstance(n, (ast.Set, ast.SetComp)):
       return True
     if isinstance(n, ast.Call) and isinstance(n.func, ast.Name) and n.func.id in ('set', 'frozenset'):
@@ -83,8 +88,48 @@ def module_mutables(tree):
   return out
 
 
-def function_sites(rel, fn, qual, module_names=()):
+def class_mutables(tree):
+  """{class name: names bound in the class body to a mutable container}."""
+  out = {}
+  for ch in ast.walk(tree):
+    if isinstance(ch, ast.ClassDef):
+      names = set()
+      for st in ch.body:
+        if isinstance(st, (ast.Assign, ast.AnnAssign)) and st.value is not None:
+          v = st.value
+          if isinstance(v, (ast.Dict, ast.List, ast.Set, ast.DictComp, ast.ListComp, ast.SetComp)) or (
+              isinstance(v, ast.Call) and _src(v.func).split('.')[-1] in (
+                  'dict', 'list', 'set', 'defaultdict', 'OrderedDict', 'deque', 'Counter')):
+            for t in (st.targets if isinstance(st, ast.Assign) else [st.target]):
+              if isinstance(t, ast.Name):
+                names.add(t.id)
+      if names:
+        out[ch.name] = names
+  return out
+
+
+def function_sites(rel, fn, qual, module_names=(), class_names=None):
   sites = []
+  # F5 (class-level container mutated: through Class.X / cls.X / self.X or a local alias of it)
+  all_cls = set().union(*class_names.values()) if class_names else set()
+
+  def is_class_container(e):
+    return isinstance(e, ast.Attribute) and isinstance(e.value, ast.Name) and e.attr in all_cls and (
+        e.value.id in ('cls', 'self') or e.value.id in (class_names or {}))
+  aliases = set()
+  for n in ast.walk(fn):
+    if isinstance(n, ast.Assign) and is_class_container(n.value):
+      aliases.update(t.id for t in n.targets if isinstance(t, ast.Name))
+
+  def hits(e):
+    return is_class_container(e) or (isinstance(e, ast.Name) and e.id in aliases)
+  for n in ast.walk(fn):
+    if isinstance(n, (ast.Assign, ast.AugAssign, ast.Delete)):
+      for t in (n.targets if isinstance(n, (ast.Assign, ast.Delete)) else [n.target]):
+        if isinstance(t, ast.Subscript) and hits(t.value):
+          sites.append(('F5', 'class-level container written: ' + _src(n)[:80]))
+    if isinstance(n, ast.Call) and isinstance(n.func, ast.Attribute) and n.func.attr in MUTATORS and hits(n.func.value):
+      sites.append(('F5', 'class-level container mutated: ' + _src(n)[:80]))
   # F5 (module-level container mutated from a function: a cache / registry shared between compilations)
   local = {a.arg for a in fn.args.args + fn.args.kwonlyargs} | \
       {t.id for n in ast.walk(fn) if isinstance(n, ast.Assign) for t in n.targets if isinstance(t, ast.Name)}
@@ -169,13 +214,23 @@ def inventory():
     path = os.path.join(REPO, rel)
     tree = ast.parse(open(path, encoding='utf-8').read())
     mm = module_mutables(tree)
+    cm = class_mutables(tree)
+    # functions of this module that return sets (two rounds: a set function may return a call of another)
+    for _ in range(2):
+      for ch in tree.body:
+        if isinstance(ch, ast.FunctionDef):
+          rets = [r.value for r in ast.walk(ch) if isinstance(r, ast.Return) and r.value is not None]
+          sets_ = Sets()
+          sets_.visit(ch)
+          if rets and all(sets_.is_set(r) for r in rets):
+            Sets.SET_FUNCS.add(ch.name)
 
     def walk(node, prefix):
       for ch in ast.iter_child_nodes(node):
         if isinstance(ch, ast.ClassDef):
           walk(ch, prefix + ch.name + '.')
         elif isinstance(ch, (ast.FunctionDef, ast.AsyncFunctionDef)):
-          out.extend(function_sites(rel, ch, prefix + ch.name, mm))
+          out.extend(function_sites(rel, ch, prefix + ch.name, mm, cm))
     walk(tree, '')
   # de-duplicate while keeping order
   seen, res = set(), []
